@@ -45,6 +45,7 @@ let parse_cmd (s : string) : cmd =
   | ["rm"; p] | ["xrm"; p] -> CRemove (relpat p)
   | ["su"; p] | ["sq"; p] -> CSubscribe (abspat p)
   | ["un"; p] -> CUnsubscribe (abspat p)
+  | ["ua"] -> CUnsubscribeAll
   | ["gd"; p] -> CGetData (abspat p)
   | ["rs"; v] -> CSetRefl (b01 v)
   | ["mx"; _] -> CNoop
